@@ -6,7 +6,7 @@
     and causality of the impulse response.  See DESIGN.md 5/C16. *)
 From Coq Require Import List ZArith QArith Qcanon Bool Reals Lra.
 From Inovesa Require Import Base.FieldKit Base.Float32 Model.Impedance Model.ImpedanceR
-  Proofs.ImpedanceP Proofs.ImpedanceRP.
+  Proofs.ImpedanceP Proofs.ImpedanceRP Proofs.ImpedanceVP.
 Import ListNotations.
 Local Open Scope Z_scope.
 
@@ -86,6 +86,41 @@ Theorem C16_factory_passive :
     factory_R pp dfs Z1 drw Z0 ro ri n gap use_csr s xi rc file = Some v -> Forall passive v.
 Proof. exact factory_R_passive. Qed.
 Print Assumptions C16_factory_passive.
+
+(** 2d. the tie's relational validators (extracted, run on the implementation's vectors):
+    every accepted vector has the shape of clause 1 and its samples satisfy the rational
+    inequalities [cube_ok] / [sqrt_ok] / the certified interval - so the statements about
+    accepted vectors are statements about what the implementation returned in the run *)
+Theorem C16_accepted_vectors :
+  (forall tol cre cim delta n v, accept_fs tol cre cim delta n v = true ->
+     zlen v = n /\ zero_above cq cq0 v (n / 2) /\
+     forall i, 0 <= i <= n / 2 -> i < n ->
+       cube_ok tol cre (Qcz i * delta) (fst (nthz cq0 v i)) = true /\
+       cube_ok tol cim (Qcz i * delta) (snd (nthz cq0 v i)) = true) /\
+  (forall tol k delta n v, accept_rw tol k delta n v = true ->
+     zlen v = n /\ zero_above cq cq0 v (n / 2) /\
+     forall i, 0 <= i <= n / 2 -> i < n ->
+       sqrt_ok tol k (Qcz i * delta) (fst (nthz cq0 v i)) = true /\
+       snd (nthz cq0 v i) = (- fst (nthz cq0 v i))%Qc) /\
+  (forall lo hi n v, accept_const lo hi n v = true ->
+     zlen v = n /\ zero_above cq cq0 v (n / 2 - 1) /\
+     forall i, 0 <= i < n / 2 -> i < n ->
+       (lo <= fst (nthz cq0 v i) <= hi)%Qc /\ snd (nthz cq0 v i) = 0%Qc) /\
+  (forall tol c x v, cube_ok tol c x v = true ->
+     (qcabs (v * v * v - c * c * c * x) <= tol * qcabs (c * c * c * x))%Qc /\ (0 <= v * c \/ v = 0)%Qc) /\
+  (forall tol k x v, sqrt_ok tol k x v = true ->
+     (qcabs (v * v - k * x) <= tol * qcabs (k * x))%Qc /\ (0 <= v)%Qc).
+Proof.
+  exact (conj accept_fs_sound (conj accept_rw_sound (conj accept_const_sound (conj cube_ok_spec sqrt_ok_spec)))).
+Qed.
+Print Assumptions C16_accepted_vectors.
+
+Example C16_accept_example :
+  accept_fs (Q2Qc (1 # 1000)) 1%Qc 1%Qc (Q2Qc 8) 3 [(0, 0); (Q2Qc 2, Q2Qc 2); (0, 0)]%Qc = true /\
+  accept_rw (Q2Qc (1 # 1000)) (Q2Qc 4) 1%Qc 3 [(0, 0); (Q2Qc 2, Q2Qc (-2)); (0, 0)]%Qc = true /\
+  accept_const 1%Qc (Q2Qc 2) 4 [(1, 0); (Q2Qc 2, 0); (0, 0); (0, 0)]%Qc = true /\
+  accept_fs (Q2Qc (1 # 1000)) 1%Qc 1%Qc (Q2Qc 8) 3 [(0, 0); (Q2Qc 2, Q2Qc 2); (1, 0)]%Qc = false.
+Proof. vm_compute. repeat split. Qed.
 
 Local Open Scope R_scope.
 
